@@ -8,6 +8,9 @@
               dominated by the __validate_description call; nothing called before it may write them
   C14-MATCH   the answer/offer m-line comparison is order- and multiplicity-sensitive
   C14-CLOSED  close() latches __isClosed before its first suspension point and returns early when latched
+  C14-SLOTS   the 'replace description' step evaluated per type: answer -> current := new, pending := None; offer -> pending := new
+  C14-VALID   the per-section structural checks evaluated for audio / video / application sections x defect (ICE ufrag or password
+              missing, answer with role actpass, rtcp-mux missing): ValueError exactly for the defective descriptions
 Does not decide: pranswer/rollback, side effects on objects other than the five slots.
 """
 from __future__ import annotations
